@@ -300,7 +300,7 @@ def empty_body_check(ctx):
 
 
 def run(ctx):
-    em = {"translated": 0.3, "structid": 0.3, "malformed": 0.35, "textlayer": True, "single": 1.6, "batch": 0.8, "damaged": 0.6, "descriptor": 0.8, "noise": 0.5, "pool": 0.4, "randreg": 2.5, "post": 0.02,
+    em = {"names": 0.6, "longbody": 0.3, "translated": 0.3, "structid": 0.3, "malformed": 0.35, "textlayer": True, "single": 1.6, "batch": 0.8, "damaged": 0.6, "descriptor": 0.8, "noise": 0.5, "pool": 0.4, "randreg": 2.5, "post": 0.02,
           "exhaustive_single": True, "ws": 0.06, "garbage": 0.05}
     sc.standard_run(ctx, "C05", MONITORS, sc.proj_codes, em, RULE)
     bind_differential(ctx)
